@@ -31,7 +31,7 @@ RULE = ("cases = (abstract client state: each of 3 types none/subscribed/paused,
         "distinct = distinct (state, op, args)")
 ASSUMPTIONS = ["delivered set is decided from raw bytes on client.sock after fences (ACKs) on both connections",
                "contexts are exited normally; a context entered with ALL in its list is outside the statement"]
-REQUIRE = {"cases_with_largest_message_id": 5, "probes_compared": 500, "context_restores_checked": 100, "suball_refusals_checked": 30, "reconnects": 20}
+REQUIRE = {"twin_probes_compared": 100, "cases_with_largest_message_id": 5, "probes_compared": 500, "context_restores_checked": 100, "suball_refusals_checked": 30, "reconnects": 20}
 CASE_TIMEOUT = 200
 
 SHAPES3 = [[0], [1], [2], [0, 1], [1, 2], [0, 2], [0, 1, 2], [0, 0], [1, 0, 1], [2, 1, 0], []]
@@ -75,6 +75,8 @@ def gen_cases(tier, seed):
         rng.shuffle(units)
         for i in range(0, len(units), per):
             cases.append({"kind": "bfs", "units": units[i:i + per], "tc": False, "n_types": 4})
+    for i in range(6 if tier == "quick" else 150):
+        cases.append({"kind": "twins", "seed": rng.getrandbits(32), "len": 25, "tc": i % 4 == 3, "n_types": 3})
     return cases
 
 
@@ -200,7 +202,100 @@ def ctx_shape(args, before):
     return f"{kinds}:{dup}"
 
 
+def run_twins(case):
+    """two live clients under one module id (allow_multiple): each has its own subscriptions, and for each of them what it
+    reports is what the manager delivers to its connection"""
+    import time as _t
+    import warnings
+    from pyrtma.client import Client
+    from vf.rig.client_rig import RawReader
+    warnings.simplefilter("ignore")
+    tc = bool(case.get("tc"))
+    rig = ManagerRig(stepped=False, timecode=tc)
+    res = {"violations": [], "counters": {}, "sets": {}, "sig": sig_of(["twins", case["seed"], tc]), "nontrivial": True}
+    V, C = res["violations"], res["counters"]
+    rng = random.Random(case["seed"])
+    univ = [1001, 1002, 1003]
+    twins = []
+    try:
+        for k in range(2):
+            c = Client(module_id=50, timecode=tc)
+            c.connect(f"127.0.0.1:{rig.addr[1]}", allow_multiple=True)
+            twins.append({"c": c, "rd": RawReader(c.sock, tc), "sent0": c.msg_count, "acks": 0})
+        P = rig.client("P")
+        P.send_frame(W.MT_CONNECT_V2, W.p_connect_v2(0, 0, 0, 77, 1, b"prober"), src_mod=77)
+        P.send_frame(W.MT_CONNECT, W.p_connect(0, 0), src_mod=77)
+        packs, tag = [1], [0]
+
+        def wait_p():
+            end = _t.time() + 5
+            while _t.time() < end:
+                if sum(1 for f in P.frames()[0] if f.msg_type == W.MT_ACK) >= packs[0]:
+                    return True
+                _t.sleep(0.001)
+            return False
+
+        if not wait_p():
+            res["inconclusive"] = "prober handshake not acknowledged"
+            return res
+        for step in range(case["len"]):
+            t = twins[rng.randrange(2)]
+            op = rng.choice(["subscribe", "subscribe", "unsubscribe", "pause_subscription", "resume_subscription", "subscribe_all", "unsubscribe_from_all"])
+            arg = rng.sample(univ, rng.randint(1, 2))
+            try:
+                if op == "subscribe_all":
+                    t["c"].subscribe([ALL])
+                elif op == "unsubscribe_from_all":
+                    t["c"].unsubscribe_from_all()
+                else:
+                    getattr(t["c"], op)(arg)
+            except Exception:
+                pass      # refusals (e.g. under subscribe-to-all) are C02's main cases; here only the outcome matters
+            for tw in twins:
+                sent = tw["c"].msg_count - tw["sent0"]
+                tw["sent0"] = tw["c"].msg_count
+                tw["acks"] += sent
+                if not tw["rd"].wait_for(lambda fs, n=tw["acks"]: sum(1 for f in fs if f.msg_type == W.MT_ACK and f.dest_mod == 50) >= n, 5.0):
+                    res["inconclusive"] = "a twin's control frames were not acknowledged in time"
+                    return res
+            tags = {}
+            for ty in univ + [1999]:
+                tag[0] += 1
+                st = 3_000_000_000.0 + tag[0]
+                tags[st] = ty
+                P.send_frame(ty, b"", send_time=st, src_mod=77)
+            P.send_frame(W.MT_SUBSCRIBE, W.p_sub(4999), src_mod=77)
+            packs[0] += 1
+            if not wait_p() or not rig.outq_empty(5.0):
+                res["inconclusive"] = "probe fence timed out"
+                return res
+            for k, tw in enumerate(twins):
+                tw["rd"].pump(0.0)
+                got = {tags[f.send_time] for f in tw["rd"].frames() if f.send_time in tags}
+                subs = set(tw["c"].subscribed_types)
+                want = set(univ + [1999]) if ALL in subs else {x for x in subs if x in univ}
+                C["twin_probes_compared"] = C.get("twin_probes_compared", 0) + 1
+                if got != want:
+                    V.append({"mech": "twin_reported_but_not_delivered" if want - got else "twin_delivered_but_not_reported",
+                              "detail": f"step {step} ({op} {arg}): instance {k} of module 50 reports subscribed={sorted(subs)} paused={sorted(tw['c'].paused_subscribed_types)}; "
+                                        f"probes delivered to its connection {sorted(got)}, expected {sorted(want)}"})
+                    return res
+        return res
+    finally:
+        for tw in twins:
+            try:
+                tw["c"]._sock.close()
+                tw["c"]._connected = False
+                for h in list(tw["c"].logger.logger.handlers):
+                    tw["c"].logger.logger.removeHandler(h)
+            except Exception:
+                pass
+        rig.close()
+
+
 def run_case(case, tier):
+    if case.get("kind") == "twins":
+        return run_twins(case)
     rig = ManagerRig(stepped=False, timecode=bool(case.get("tc")))
     res = {"violations": [], "counters": {}, "sets": {}, "sig": None, "nontrivial": False}
     o = Obs(res)
